@@ -336,9 +336,9 @@ func init() {
 		return res.Viol, nil
 	}
 	registerCheck("C16", "model_checking", 120*time.Second, 30*time.Minute, func(r *Run) {
-		d1, d2 := 5, 4
+		d1, d2 := 6, 5
 		if !r.Quick() {
-			d1, d2 = 7, 6
+			d1, d2 = 8, 6
 		}
 		var jobs []any
 		for _, contract := range []bool{false, true} {
